@@ -43,6 +43,8 @@ def canon(v, depth=0):
 
 
 def close(a, b):
+    if type(a) is type(b) and isinstance(a, (int, float, str, bool, type(None))) and a == b:
+        return True  # also equal infinities
     if isinstance(a, float) and isinstance(b, float):
         return abs(a - b) <= 2e-3 * max(1.0, abs(a), abs(b))
     if isinstance(a, list) and isinstance(b, list):
